@@ -123,7 +123,7 @@ def check_class(res, index, cls):
                 res.bad("IN-4", f"{label}:componentwise", e.where(), f"{label} decides membership by a component-wise comparison "
                         f"`{e.src()[:60]}` (a box / quadrant test), not by a norm of the centred, axis-scaled coordinates")
         if seen == 0:
-            res.bad("IN-4", f"{label}:nocmp", where, f"{label}: no membership comparison found")
+            raise AnalysisError(f"IN-4: {label} decides membership without a comparison the analysis recognises")
         elif not bad4:
             res.ok("IN-4", label)
     return True
